@@ -41,6 +41,8 @@ def case_strategy(draw):
         "layout": draw(st.sampled_from(["C", "C", "C", "F", "neg", "T"])),
         "metric": metric,
         "thr": draw(gen.threshold(metric)),
+        # the matcher object has matched another pair of the same shape before (None: fresh matcher)
+        "reuse": draw(st.sampled_from([None, None, "mirrored", "rolled_pred", "exchanged"])),
     }
 
 
@@ -103,7 +105,17 @@ def check(case, stats):
     stats.record(case, nontrivial, classes)
 
     mt = lib.matcher({"kind": "merge", "metric": metric, "thr": thr})
-    out = H.lib_call(lambda: mt.match_instances(UnmatchedInstancePair(pred.copy(), ref.copy())))
+    if case.get("reuse"):
+        if case["reuse"] == "mirrored":
+            p0, r0 = pred[::-1].copy(), ref[::-1].copy()
+        elif case["reuse"] == "rolled_pred":
+            p0, r0 = np.roll(pred, 1, axis=-1), ref.copy()
+        else:
+            p0, r0 = ref.copy(), pred.copy()
+        if p0.any() and r0.any():
+            H.lib_call(lambda: mt.match_instances(UnmatchedInstancePair(p0, r0)))
+            stats.count("matcher_object_used_before")
+    out = H.lib_call(lambda: mt.match_instances(UnmatchedInstancePair(pred.copy(order="K"), ref.copy(order="K"))))
     if not np.array_equal(np.asarray(out.reference_arr), ref):
         raise Violation("matching changed the reference map")
     assign, _ = read_assignment(out, pred, ref, set(rin))
